@@ -1,6 +1,7 @@
 import N0Verif.Proofs.XPathStore
 import N0Verif.Proofs.XPathHidden
 import N0Verif.Proofs.XPathHiddenSet
+import N0Verif.Proofs.XPathHiddenRow
 /-!
 # C02 — assigning through an xpath to an existing node changes exactly that node
 
@@ -255,5 +256,36 @@ example : ∃ t', setAt exTree2 [.key ['h'], .idx 1, .key ['p']] (.int 7) = some
     ⟨⟨by simp, by decide, by simp⟩, trivial⟩ rfl rfl (Or.inl rfl) ⟨⟨by simp, by decide, by simp⟩, trivial⟩ rfl (by decide)
 example : (setItem 40 exTree2 ['/', '/', 'h', '[', '1', ']', '[', '0', ']', '/', 'p'] (.int 7)).1
     = .dict .n0 [(['h'], .list .n0 [.int 1, .dict .n0 [(['p'], .int 7)]])] := by decide
+
+/-- **C02 (hidden list, several hidden indexes in a row).**  Item 0 of the hidden list is the value itself, which is again
+the list of this one item: `d['//…P…[0][-1][last()]'] = v` — any number ≥ 1 of indexes, each any spelling of `0` / `-1` —
+on the single value at the plain position `P` (the value of a key: `a[0][0]`; an element of a list: `h[1][0][0]`) is the
+write to the existing node `P`: exactly `setAt t P v`, nothing raised. -/
+theorem C02_set_hidden_row (cls : Cls) (kvs : List (Str × Val)) (P : Pos) (old : Val) (init : List IdxSp) (l : IdxSp)
+    (v : Val) (fuel : Nat)
+    (hp : PlainPos P) (hne : P ≠ []) (hP : getAt (.dict cls kvs) P = some old) (hs : isList old = false)
+    (hgi : ∀ e ∈ init, e.val = 0 ∨ e.val = -1) (hg : l.val = 0 ∨ l.val = -1)
+    (hf : fuel ≥ 2 * P.length + 3 + init.length) :
+    ∃ t', setAt (.dict cls kvs) P v = some t' ∧
+      setItem fuel (.dict cls kvs) (slash ++ renderPos P ++ (init ++ [l]).flatMap (fun e => bracket e.text)) v
+        = (t', .ok ()) := by
+  obtain ⟨t', ht'⟩ := setAt_isSome P _ old v hP
+  exact ⟨t', ht', setItem_hidden_row cls kvs P old init l v t' fuel hp hne hP hs hgi hg ht' hf⟩
+
+/-- `d['//k[0][-1][last()]'] = 7` on `exTree` -/
+example : ∃ t', setAt exTree [.key ['k']] (.int 7) = some t' ∧
+    setItem 40 exTree ['/', '/', 'k', '[', '0', ']', '[', '-', '1', ']', '[', 'l', 'a', 's', 't', '(', ')', ']'] (.int 7)
+      = (t', .ok ()) :=
+  C02_set_hidden_row .n0 _ [.key ['k']] (.bool true) [.lit 0, .neg 1] .last (.int 7) 40
+    ⟨⟨by simp, by decide, by simp⟩, trivial⟩ (by simp) rfl rfl (by decide) (Or.inr rfl) (by decide)
+/-- `d['//a/b[0][0][0]'] = 7` on `exTree`: two hidden indexes on an element of a list -/
+example : ∃ t', setAt exTree [.key ['a'], .key ['b'], .idx 0] (.int 7) = some t' ∧
+    setItem 40 exTree ['/', '/', 'a', '/', 'b', '[', '0', ']', '[', '0', ']', '[', '0', ']'] (.int 7) = (t', .ok ()) :=
+  C02_set_hidden_row .n0 _ [.key ['a'], .key ['b'], .idx 0] (.int 1) [.lit 0] (.lit 0) (.int 7) 40
+    ⟨⟨by simp, by decide, by simp⟩, ⟨by simp, by decide, by simp⟩, trivial⟩ (by simp) rfl rfl (by decide) (Or.inl rfl)
+    (by decide)
+example : (setItem 40 exTree ['/', '/', 'k', '[', '0', ']', '[', '-', '1', ']', '[', 'l', 'a', 's', 't', '(', ')', ']'] (.int 7)).1
+    = .dict .n0 [(['a'], .dict .plain [(['b'], .list .plain [.int 1, .list .n0 [.str ['x'], .none]])]), (['k'], .int 7)] := by
+  decide
 
 end N0.C02
